@@ -1,15 +1,15 @@
 """Shared plan of the convergence family (spec/Conv.tla), used by C01, C03 and C06."""
-import fam_conv
+import fam_conv, fam_multikind
 from props import COMPOSITE, DECORATOR
 
 CONV_PLAN = {
     "pkgs": {"composite": COMPOSITE, "decorator": DECORATOR},
     "mc": {
-        "quick": [("MC_Conv", "MC_Conv_q.cfg", None)],
-        "thorough": [("MC_Conv", "MC_Conv_q.cfg", None), ("MC_Conv", "MC_Conv_t.cfg", None)],
+        "quick": [("MC_Conv", "MC_Conv_q.cfg", None), ("MC_MultiKind", "MC_MultiKind.cfg", None)],
+        "thorough": [("MC_Conv", "MC_Conv_q.cfg", None), ("MC_Conv", "MC_Conv_t.cfg", None), ("MC_MultiKind", "MC_MultiKind.cfg", None)],
     },
     "beh": {
-        "quick": [("MC_Conv", "Beh_Conv_t.cfg", fam_conv.convert, 1000)],
-        "thorough": [("MC_Conv", "Beh_Conv_t.cfg", fam_conv.convert, 0)],
+        "quick": [("MC_Conv", "Beh_Conv_t.cfg", fam_conv.convert, 1000), ("MC_MultiKind", "Beh_MultiKind.cfg", fam_multikind.convert, 200)],
+        "thorough": [("MC_Conv", "Beh_Conv_t.cfg", fam_conv.convert, 0), ("MC_MultiKind", "Beh_MultiKind.cfg", fam_multikind.convert, 0)],
     },
 }
